@@ -73,7 +73,11 @@ def one(cases, model, rng, tier, d, rep, tmpdir):
         c = x.clone()
         if storages(c) & storages(x):
             return "clone shares storage with the original"
-        for nm, z in (("clone", c), ("detach", x.detach()), ("cpu", x.cpu())):
+        import copy as _copy, pickle as _pickle
+        dcp = _copy.deepcopy(x)
+        if storages(dcp) & storages(x):
+            return "deepcopy shares storage with the original"
+        for nm, z in (("clone", c), ("detach", x.detach()), ("cpu", x.cpu()), ("copy.deepcopy", dcp), ("copy.copy", _copy.copy(x)), ("pickle", _pickle.loads(_pickle.dumps(x)))):
             if meta_str(z) != meta_str(x):
                 return "%s changed metadata" % nm
             e = exact_equal(dense_of(z), dx)
